@@ -323,4 +323,21 @@ theorem C08_source_teardown_forwards (o : Gates.Obs) (h1 : o.original = true) (h
 theorem C08_source_responder_errors_are_errors :
     Generated.dispatch .panic = .errExplicitPanic ∧ Generated.dispatch .ret = .returnOrCannotReturnTwice := ⟨rfl, rfl⟩
 
+/-! ### the same path as compiled WITHOUT the std feature (`Generated.teardownStepsNoStd`, `Generated.inducePanicStepsNoStd`) -/
+
+/-- without std, `induce_panic` still records before it panics with the error's text, and the flag it sets is the one of the
+    instance the call was made on — a clone's panic leaves the original's flag alone -/
+theorem C08_source_nostd_error_path :
+    Gates.runE Generated.inducePanicStepsNoStd false false = some (true, true) ∧
+    Gates.setsOwnFlag Generated.inducePanicStepsNoStd = true := by decide
+
+/-- hence errors induced through clones are reported: an original whose own flag is clear (`panicking = false` in the no_std
+    reading), with no clone left alive and a non-empty log, reports the log — there is no thread check without std -/
+theorem C08_source_nostd_clone_errors_reported (o : Gates.Obs) (h1 : o.original = true) (h2 : o.panicking = false)
+    (h3 : o.others = false) (h5 : o.reasons = true) :
+    (Gates.run Generated.teardownStepsNoStd o {}).1 = .errsReasons := by
+  obtain ⟨a, b, c, d, e, f, g, k⟩ := o
+  simp only at h1 h2 h3 h5; subst h1 h2 h3 h5
+  cases d <;> cases e <;> cases f <;> cases k <;> rfl
+
 end Unimock
